@@ -14,6 +14,7 @@ from typing import TypeVar
 from jsonpath_rfc9535.function_extensions.filter_function import ExpressionType
 from jsonpath_rfc9535.function_extensions.filter_function import FilterFunction
 
+from .exceptions import JSONPathRecursionError
 from .exceptions import JSONPathTypeError
 from .node import JSONPathNode
 from .node import JSONPathNodeList
@@ -270,7 +271,13 @@ class ComparisonExpression(Expression):
         if isinstance(right, JSONPathNodeList) and len(right) == 1:
             right = right[0].value
 
-        return _compare(left, self.operator, right)
+        try:
+            return _compare(left, self.operator, right)
+        except RecursionError as err:
+            # Arrays and objects are compared recursively.
+            raise JSONPathRecursionError(
+                "comparison of values nested too deeply", token=self.token
+            ) from err
 
 
 class FilterQuery(Expression, ABC):
